@@ -6,6 +6,7 @@ package verifrt
 import (
 	"encoding/json"
 	"fmt"
+	"math/rand"
 	"os"
 	"strconv"
 )
@@ -70,6 +71,19 @@ func Choose(n int) int {
 	}
 	return v
 }
+
+// ChooseSchedule is a scheduling decision (which goroutine goes on).  The engine explores it like
+// Choose.  A native run cannot impose a schedule on the Go runtime, so it consumes the slot of the
+// replay vector and draws the decision at random; the harness repeats its scenario Repeat() times,
+// and a counterexample counts as reproduced when some repetition ends in the same failure.
+func ChooseSchedule(n int) int {
+	next()
+	return rand.Intn(n)
+}
+
+// Repeat: how often a natively running harness with scheduling decisions repeats its scenario
+// (1 under the engine, which enumerates the decisions instead).
+func Repeat() int { return 40 }
 
 type AssumeViolated struct{ What string }
 type AssertFailed struct{ Label string }
